@@ -988,6 +988,7 @@ func (w *Worker) reset() {
 	}
 	w.Clients = map[string]*Client{}
 	w.expired = map[uint64]int{}
+	w.Cl.PurgeClosed()
 	w.Log.Tid = saveTid
 }
 
